@@ -26,6 +26,9 @@ func init() {
 		"bin:==:int,int", "bin:!=:int,int", "bin:<:int,int", "bin:<=:int,int", "bin:>:int,int", "bin:>=:int,int",
 		"bin:+:str,str", "bin:==:str,str", "bin:!=:str,str",
 		"bin:&&:bool,bool", "bin:==:bool,bool", "bin:!=:bool,bool",
+		// an optional int or string (an attribute that some records carry as null) compared with null
+		"bin:==:int,null", "bin:==:null,int", "bin:==:str,null", "bin:==:null,str", "bin:==:null,null",
+		"bin:!=:int,null", "bin:!=:null,int", "bin:!=:str,null", "bin:!=:null,str", "bin:!=:null,null",
 		"bin:|:list,list", "bin:|:set,set", "bin:|:list,set",
 		"bin:in:str,list", "bin:in:str,set", "bin:in:str,map", "bin:!in:str,list", "bin:!in:str,set", "bin:!in:str,map",
 		"where:list,str", "where:list,map", "where:list,list", "where:list,empty",
@@ -56,6 +59,8 @@ var (
 	c10TLStr = c10TList(c10TStr)
 	c10TSInt = c10TSet(c10TInt)
 	c10TSStr = c10TSet(c10TStr)
+	c10TOInt = &c10Ty{K: "o", El: c10TInt}
+	c10TOStr = &c10Ty{K: "o", El: c10TStr}
 	c10TInc  = &c10Ty{K: "m", F: []c10Field{{"o", c10TInt}}}
 	c10TCat  = &c10Ty{K: "m", F: []c10Field{{"o", c10TLInt}}}
 	c10TDbl  = c10TList(&c10Ty{K: "m", F: []c10Field{{"o", c10TInt}, {"i", c10TInt}}})
@@ -171,6 +176,20 @@ func (g *c10Gen) collLit(ty *c10Ty) *c10Ex {
 
 func (g *c10Gen) leaf(ty *c10Ty, vars []c10Var) *c10Ex {
 	cands := c10VarsOf(vars, func(t *c10Ty) bool { return t.eq(ty) })
+	if ty.K == "o" {
+		// a variable or attribute of the optional type, null, or a plain value of the base type
+		srcs := g.attrSources(ty, vars)
+		for _, v := range c10VarsOf(vars, func(t *c10Ty) bool { return t.eq(ty) }) {
+			srcs = append(srcs, c10VarEx(v))
+		}
+		if len(srcs) > 0 && g.intn(4, "optsrc") > 0 {
+			return srcs[g.intn(len(srcs), "optvar")]
+		}
+		if g.coin("optnull") {
+			return &c10Ex{Op: "lit", T: ty, Lit: &c10Val{K: "null"}}
+		}
+		return g.leaf(ty.El, vars)
+	}
 	constructible := ty.K != "m" && !(ty.isColl() && ty.El.K != "i" && ty.El.K != "s")
 	if len(cands) > 0 && (!constructible || g.intn(3, "usevar") > 0) {
 		return c10VarEx(cands[g.intn(len(cands), "var")])
@@ -240,6 +259,8 @@ func (g *c10Gen) expr(ty *c10Ty, d int, vars []c10Var) *c10Ex {
 		return g.boolExpr(d, vars)
 	case "l", "t":
 		return g.collExpr(ty, d, vars)
+	case "o":
+		return g.optExpr(ty, d, vars)
 	}
 	// records: a variable, an if between two of them, or a helper call
 	if ty.eq(c10TInc) && g.coin("inc") {
@@ -249,6 +270,45 @@ func (g *c10Gen) expr(ty *c10Ty, d int, vars []c10Var) *c10Ex {
 		return &c10Ex{Op: "if", T: ty, A: g.expr(c10TBool, d, vars), B: g.leaf(ty, vars), C: g.leaf(ty, vars)}
 	}
 	return g.leaf(ty, vars)
+}
+
+// optExpr yields a value that is null under a condition and of the base type otherwise.
+func (g *c10Gen) optExpr(ty *c10Ty, d int, vars []c10Var) *c10Ex {
+	null := &c10Ex{Op: "lit", T: ty, Lit: &c10Val{K: "null"}}
+	switch g.intn(4, "optop") {
+	case 0, 1:
+		if g.coin("optswap") {
+			return &c10Ex{Op: "if", T: ty, A: g.expr(c10TBool, d, vars), B: g.expr(ty.El, d, vars), C: null}
+		}
+		return &c10Ex{Op: "if", T: ty, A: g.expr(c10TBool, d, vars), B: null, C: g.expr(ty.El, d, vars)}
+	case 2:
+		return &c10Ex{Op: "if", T: ty, A: g.expr(c10TBool, d, vars), B: g.leaf(ty, vars), C: g.leaf(ty, vars)}
+	}
+	return g.leaf(ty, vars)
+}
+
+// nullTest yields `X == null`, `null == X` or the != forms over an optional X.
+func (g *c10Gen) nullTest(d int, vars []c10Var) *c10Ex {
+	ty := c10TOInt
+	if g.coin("optstr") {
+		ty = c10TOStr
+	}
+	x := g.expr(ty, d, vars)
+	null := &c10Ex{Op: "lit", T: ty, Lit: &c10Val{K: "null"}}
+	sym := []string{"==", "==", "!="}[g.intn(3, "nullcmp")]
+	if g.intn(4, "nullleft") == 0 {
+		return &c10Ex{Op: "bin", T: c10TBool, Sym: sym, A: null, B: x}
+	}
+	return &c10Ex{Op: "bin", T: c10TBool, Sym: sym, A: x, B: null}
+}
+
+// orDefault yields `if X == null then D else X` of the base type of the optional X.
+func (g *c10Gen) orDefault(base *c10Ty, d int, vars []c10Var) *c10Ex {
+	ty := &c10Ty{K: "o", El: base}
+	x := g.leaf(ty, vars)
+	null := &c10Ex{Op: "lit", T: ty, Lit: &c10Val{K: "null"}}
+	test := &c10Ex{Op: "bin", T: c10TBool, Sym: "==", A: x, B: null}
+	return &c10Ex{Op: "if", T: base, A: test, B: g.expr(base, d, vars), C: c10CloneEx(x)}
 }
 
 func (g *c10Gen) pickCollTy(label string) *c10Ty {
@@ -280,6 +340,10 @@ func (g *c10Gen) intExpr(d int, vars []c10Var) *c10Ex {
 	case 8:
 		if as := g.attrSources(c10TInt, vars); len(as) > 0 {
 			return as[g.intn(len(as), "attr")]
+		}
+	case 9:
+		if g.coin("intordefault") {
+			return g.orDefault(c10TInt, d, vars)
 		}
 	}
 	return g.leaf(c10TInt, vars)
@@ -319,7 +383,11 @@ func (g *c10Gen) singleExpr(ty *c10Ty, d int, vars []c10Var) *c10Ex {
 }
 
 func (g *c10Gen) strExpr(d int, vars []c10Var) *c10Ex {
-	switch g.intn(5, "sop") {
+	switch g.intn(6, "sop") {
+	case 5:
+		if g.coin("strordefault") {
+			return g.orDefault(c10TStr, d, vars)
+		}
 	case 0, 1:
 		return &c10Ex{Op: "bin", T: c10TStr, Sym: "+", A: g.expr(c10TStr, d, vars), B: g.expr(c10TStr, d, vars)}
 	case 2:
@@ -334,7 +402,9 @@ func (g *c10Gen) strExpr(d int, vars []c10Var) *c10Ex {
 }
 
 func (g *c10Gen) boolExpr(d int, vars []c10Var) *c10Ex {
-	switch g.intn(9, "bop") {
+	switch g.intn(10, "bop") {
+	case 9:
+		return g.nullTest(d, vars)
 	case 0, 1:
 		return &c10Ex{Op: "bin", T: c10TBool, Sym: []string{"==", "!=", "<", "<=", ">", ">="}[g.intn(6, "cmp")], A: g.expr(c10TInt, d, vars), B: g.expr(c10TInt, d, vars)}
 	case 2:
@@ -563,7 +633,7 @@ func (g *c10Gen) collExpr(ty *c10Ty, d int, vars []c10Var) *c10Ex {
 // ---------- statements ----------
 
 func (g *c10Gen) stmtType(vars []c10Var) *c10Ty {
-	base := []*c10Ty{c10TInt, c10TInt, c10TStr, c10TBool, c10TLInt, c10TLInt, c10TLInt, c10TLStr, c10TSInt, c10TSStr, c10TDbl, c10TPar}
+	base := []*c10Ty{c10TInt, c10TInt, c10TStr, c10TBool, c10TLInt, c10TLInt, c10TLInt, c10TLStr, c10TSInt, c10TSStr, c10TDbl, c10TPar, c10TOInt, c10TOStr}
 	// types of record-ish variables already in scope take part too
 	for _, v := range c10VarsOf(vars, func(t *c10Ty) bool { return t.K == "m" || (t.isColl() && t.El.K == "m") }) {
 		base = append(base, v.T)
